@@ -37,6 +37,9 @@ type propCfg struct {
 }
 
 var props = map[string]propCfg{
+	"C03": {Engine: "chain",
+		Quick:    []phase{{"chain", false, 25 * time.Second}, {"chain", true, 15 * time.Second}},
+		Thorough: []phase{{"chain", false, 10 * time.Minute}, {"chain", true, 3 * time.Minute}}},
 	"C05": {Engine: "conc",
 		Quick:    []phase{{"conc", false, 25 * time.Second}, {"conc", true, 35 * time.Second}},
 		Thorough: []phase{{"conc", false, 6 * time.Minute}, {"conc", true, 12 * time.Minute}}},
@@ -47,6 +50,7 @@ type Summary struct {
 	Engine       string          `json:"engine"`
 	Race         bool            `json:"race"`
 	Evaluations  int             `json:"evaluations"`
+	Runs         int             `json:"runs"`
 	Nontrivial   int             `json:"nontrivial"`
 	Requests     int             `json:"requests"`
 	Steps        int             `json:"steps"`
@@ -289,6 +293,7 @@ func mergeSummary(pr *phaseResult, mu *sync.Mutex, base string) {
 	t := &pr.Sum
 	t.Engine, t.Race, t.DistinctRule = s.Engine, s.Race, s.DistinctRule
 	t.Evaluations += s.Evaluations
+	t.Runs += s.Runs
 	t.Nontrivial += s.Nontrivial
 	t.Requests += s.Requests
 	t.Steps += s.Steps
@@ -398,7 +403,7 @@ func main() {
 		pr := runPhase(ph, bins[ph.Race], seed, tmp)
 		pr.Seed = seed
 		results = append(results, pr)
-		fmt.Printf("  runs=%d nontrivial=%d steps=%d violations=%d racehits=%d infra=%d wall=%.1fs\n", pr.Sum.Evaluations, pr.Sum.Nontrivial, pr.Sum.Steps,
+		fmt.Printf("  runs=%d cases=%d nontrivial=%d steps=%d violations=%d racehits=%d infra=%d wall=%.1fs\n", pr.Sum.Runs, pr.Sum.Evaluations, pr.Sum.Nontrivial, pr.Sum.Steps,
 			len(pr.Sum.Violations), len(pr.RaceHits), len(pr.InfraErrs), pr.Wall)
 	}
 
@@ -542,7 +547,7 @@ func doReplay(path string) {
 func writeEvidence(id, mode string, seed uint64, results []*phaseResult, nviol int, wall float64) {
 	sigs := map[uint64]struct{}{}
 	cov := map[string]any{}
-	evals, steps, reqs := 0, 0, 0
+	evals, steps, reqs, runs := 0, 0, 0, 0
 	var ticks int64
 	faults, sites, probes, pairs, extra := map[string]int{}, map[string]int{}, map[string]int{}, map[string]int{}, map[string]int{}
 	var samples []any
@@ -554,6 +559,7 @@ func writeEvidence(id, mode string, seed uint64, results []*phaseResult, nviol i
 			sigs[s] = struct{}{}
 		}
 		evals += pr.Sum.Evaluations
+		runs += pr.Sum.Runs
 		steps += pr.Sum.Steps
 		reqs += pr.Sum.Requests
 		ticks += pr.Sum.Ticks
@@ -584,7 +590,7 @@ func writeEvidence(id, mode string, seed uint64, results []*phaseResult, nviol i
 			rule = pr.Sum.DistinctRule
 		}
 		phasesOut = append(phasesOut, map[string]any{"engine": pr.Phase.Engine, "race_build": pr.Phase.Race, "budget_s": pr.Phase.Budget.Seconds(),
-			"master_seed": pr.Seed, "runs": pr.Sum.Evaluations, "nontrivial_runs": pr.Sum.Nontrivial, "distinct_nontrivial": len(pr.Sigs), "steps": pr.Sum.Steps,
+			"master_seed": pr.Seed, "runs": pr.Sum.Runs, "cases": pr.Sum.Evaluations, "nontrivial_cases": pr.Sum.Nontrivial, "distinct_nontrivial": len(pr.Sigs), "steps": pr.Sum.Steps,
 			"blocked_handovers": pr.Sum.Blocked, "race_reports": len(pr.RaceHits), "workers": pr.Workers, "wall_s": pr.Wall})
 	}
 	if len(samples) == 0 {
@@ -595,10 +601,11 @@ func writeEvidence(id, mode string, seed uint64, results []*phaseResult, nviol i
 	cov["rule"] = rule
 	cov["samples"] = samples
 	cov["requests_served"] = reqs
+	cov["simulated_runs"] = runs
 	cov["scheduler_steps"] = steps
 	cov["virtual_ticks"] = ticks
 	if simWall > 0 {
-		cov["runs_per_hour"] = int(float64(evals) / simWall * 3600)
+		cov["runs_per_hour"] = int(float64(runs) / simWall * 3600)
 	}
 	cov["faults_fired"] = faults
 	cov["yield_site_hits"] = sites
